@@ -93,6 +93,9 @@ public:
     void apply( const View& view )
     {
         // Fire exception in case of error.
+        // A reader passed by value shares the decompress object with its original:
+        // the error handler has to jump to the mark of the reader making the call.
+        this->get()->client_data = static_cast< backend_t* >( this );
         if( setjmp( this->_mark ))
         {
             this->raise_error();
@@ -151,6 +154,13 @@ public:
             default: { io_error( "Unsupported jpeg color space." ); }
         }
 
+        // read_rows() has returned, so the mark it set is no longer valid.
+        this->get()->client_data = static_cast< backend_t* >( this );
+        if( setjmp( this->_mark ))
+        {
+            this->raise_error();
+        }
+
         jpeg_finish_decompress ( this->get() );
     }
 
@@ -168,6 +178,7 @@ private:
         // @todo Is the buffer above cleaned up when the exception is thrown?
         //       The strategy right now is to allocate necessary memory before
         //       the setjmp.
+        this->get()->client_data = static_cast< backend_t* >( this );
         if( setjmp( this->_mark ))
         {
             this->raise_error();
